@@ -27,7 +27,18 @@ func init() {
 // partition the requested window clipped to the JOURNAL'S period, which journal.Builder derives from the directives
 // as they arrive.  input "<balance cfg> | <journal>"  observed "d1,d2,..." | ERR ...
 func obsC11Cols(in string) string {
-	out := obsBalance(in)
+	var out string
+	if cfgS, jS := splitInput(in); strings.Contains(" "+cfgS+" ", " noto=1 ") {
+		// --to is left out: its default is today, which the generator wrote into the case as `to=`
+		cfg := DecodeBalCfg(cfgS)
+		cfg.To = "-"
+		withTempDir(func(dir string) {
+			f := writeFile(dir, "journal.knut", DecodeJournal(jS).Text())
+			out = renderRun(runKnut(knutBin(), dir, nil, 20*time.Second, append(cfg.Args(), f)...))
+		})
+	} else {
+		out = obsBalance(in)
+	}
 	if !strings.HasPrefix(out, "OK ") {
 		return out
 	}
@@ -67,7 +78,26 @@ func genC11Cols(out *caseWriter, seed uint64, n int, _ []string) error {
 		if r.chance(30) {
 			cfg.Last = r.rangeInt(1, 4)
 		}
-		items = append(items, caseIn{fmt.Sprintf("C11cols-%d-%d", seed, i), "C11.cols", cfg.Enc() + " | " + j.Enc()})
+		enc := cfg.Enc()
+		if r.chance(15) {
+			// no --to on the command line (the window then ends TODAY) and a journal that reaches into the future -
+			// standing orders, budgets, entries made ahead: the columns end today (seeded change
+			// C11g-window-end-defaults-to-journal-end let the window run to the journal's last day)
+			now := time.Now()
+			today := time.Date(now.Year(), now.Month(), now.Day(), 0, 0, 0, 0, time.UTC)
+			shift := today.Year() - o.startDate.Year() - r.intn(2)
+			for k := range j {
+				if t, err := time.Parse("2006-01-02", j[k].Date); err == nil {
+					j[k].Date = dateStr(t.AddDate(shift, 0, 0))
+				}
+			}
+			cfg.To = dateStr(today)
+			if cfg.From != "-" {
+				cfg.From = dateStr(pd(cfg.From).AddDate(shift, 0, 0))
+			}
+			enc = cfg.Enc() + " noto=1"
+		}
+		items = append(items, caseIn{fmt.Sprintf("C11cols-%d-%d", seed, i), "C11.cols", enc + " | " + j.Enc()})
 	}
 	out.addBatch(items)
 	return nil
